@@ -272,12 +272,14 @@ theorem compile_correct (env : Env) (henv : EnvOk env) (cond : Expr) (hwf : WF' 
    enumerations, `for..of`, arbitrary nesting (up to the 4 loop levels the compiler allows) — is covered by
    `compile_correct_partial` below.  The remaining clauses of WF are not restrictions of the fragment but the exact
    conditions under which libyara's code is correct: they exclude the situations of findings F14 (an integer equal to
-   the sentinel), F42 (undefined quantifier), F43 (loop body / `or` left operand with a value other than 0/1) and the
-   INT64_MAX-ending range on which the iterator's `next++` overflows. -/
+   the sentinel) and F42 (undefined quantifier).
+   (F45 — a range ending at INT64_MAX wrapped around — is repaired in exec.c: the iterator is marked exhausted instead
+   of stepping past INT64_MAX, and the model's `iterAdvance` does the same.  F43 — loop bodies summed instead of counted — is repaired in exec.c; the model's OP_ITER_CONDITION normalises the
+   body value like the code does, and the raw value a short-circuited `or` leaves on the stack is handled by `WordOK`.) -/
 
 /-- **compile_correct** (all constructs except floats and `P% of`): for every environment whose memory blocks lie in
     the lower half of the address space and every condition satisfying `WF` (well-typed as the compiler types it; no
-    float, no `P% of`; none of the situations of findings F14/F42/F43), running the code that `compile` emits — the
+    float, no `P% of`; none of the situations of findings F14/F42), running the code that `compile` emits — the
     mirror of grammar.y's actions: typed opcode selection, OP_STR_TO_BOOL, short-circuit jumps with their fix-ups,
     end-of-list markers, the loop template with 3 internal + 1 user variable per nesting level and the
     ITER_NEXT / ITER_CONDITION / ITER_END protocol — on the VM model, whose pure opcodes are `Gen.VmOps` as
@@ -287,7 +289,7 @@ theorem compile_correct_partial (env : Env) (henv : EnvOk env) (cond : Expr)
     (hwf : WF env (ctxOfEnv env) {} cond) :
     ∃ fuel, modelVerdict env cond fuel = some (ruleVerdict env cond) := by
   let c := ctxOfEnv env
-  have hrun := runs_boolpos (compile c cond) (tyOf c cond) _ (exec_all env henv (compileRule c cond) cond c {} hwf)
+  obtain ⟨w, hrun, htw⟩ := (exec_all env henv (compileRule c cond) cond c {} hwf).boolpos (wf_typed env c {} cond hwf)
   have hinv : MemInv c {} ({} : St).mem := by
     refine ⟨rfl, ?_, ?_⟩
     · intro k hk
@@ -300,7 +302,7 @@ theorem compile_correct_partial (env : Env) (henv : EnvOk env) (cond : Expr)
   simp only [modelVerdict]
   rw [hr]
   simp only [verdictOf, List.append_nil, ruleVerdict]
-  rw [← word_truth env.blocks _ _ (wf_typed env c {} cond hwf)]
+  rw [← tw_truth htw]
 
 /-- non-vacuity (loop-free): a string query, a comparison and a short-circuit `and` -/
 example : let env : Env := ⟨[[(0, 2), (5, 2)]], [(0, [97, 98, 0, 0, 0, 97, 98])], 7, [], []⟩
@@ -326,9 +328,34 @@ example : let env : Env := ⟨[[(0, 2), (5, 2)], []], [(0, [97, 98, 0, 0, 0, 97,
     simp at hb
     subst hb
     decide
-  · simp [WF, SRefOk, tyOf, UNDEF, INT64_MIN, INT64_MAX, intRange, eval, ctxOfEnv, BoolWord, ValOk, vCmp, vOffset, nth,
+  · simp [WF, SRefOk, tyOf, UNDEF, INT64_MIN, INT64_MAX, intRange, eval, ctxOfEnv, ValOk, vCmp, vOffset, nth,
       Env.matchesOf, vOr, vNot, loopHolds, quantOf, quantHolds, cmpInt]
   · simp [ruleVerdict, eval, Env.matchesOf, vCmp, cmpInt, vOr, vNot, asBool, truthy, intRange, loopHolds, quantOf, quantHolds,
       countTrue, vOffset, nth]
+
+/-- non-vacuity (integer-valued loop body, the situation of the repaired finding F43):
+    `for all i in (1..1) : (#a)` with three matches of `$a` — the body's value 3 counts once -/
+example : let env : Env := ⟨[[(0, 2), (2, 2), (6, 2)]], [(0, [97, 98, 97, 98, 0, 0, 97, 98])], 8, [], []⟩
+    let cond := Expr.forRange .all (.int 0) (.int 1) (.int 1) (.count (.id 0))
+    EnvOk env ∧ WF env (ctxOfEnv env) {} cond ∧ ruleVerdict env cond = true := by
+  refine ⟨?_, ?_, ?_⟩
+  · intro b hb
+    simp at hb
+    subst hb
+    decide
+  · simp [WF, SRefOk, tyOf, UNDEF, INT64_MIN, INT64_MAX, intRange, eval, ctxOfEnv]
+  · simp [ruleVerdict, eval, Env.matchesOf, asBool, truthy, intRange, loopHolds, quantOf, quantHolds, countTrue]
+
+/-- non-vacuity (range ending at INT64_MAX, the situation of the repaired finding F45):
+    `for all i in (9223372036854775807..9223372036854775807) : (i > 0)` is true -/
+example : let env : Env := ⟨[], [], 0, [], []⟩
+    let cond := Expr.forRange .all (.int 0) (.int 9223372036854775807) (.int 9223372036854775807)
+      (.cmp .gt (.var 0) (.int 0))
+    EnvOk env ∧ WF env (ctxOfEnv env) {} cond ∧ ruleVerdict env cond = true := by
+  refine ⟨?_, ?_, ?_⟩
+  · intro b hb
+    simp at hb
+  · simp [WF, tyOf, UNDEF, INT64_MIN, INT64_MAX, intRange, eval, ctxOfEnv, ValOk]
+  · simp [ruleVerdict, eval, asBool, truthy, intRange, loopHolds, quantOf, quantHolds, countTrue, vCmp, cmpInt]
 
 end YaraModel.Cond
